@@ -31,7 +31,8 @@ DisplacedWide(zone, t) == \E i \in 1..Len(zone) : \E x \in zone[i].local :
                          IN (a - d <= t /\ t < a + d) \/ (b - d <= t /\ t < b + d)
 \* known class 3: the source changes its abbreviation while the offset stays (America/Knox_IN EST/CDT);
 \* the search compares offsets only.  nameonly = intervals [a, b) from such a change to the next offset change
-NameOnly(ivs, p) == p.off = p.tzoff /\ \E k \in 1..Len(ivs) : ivs[k][1] <= p.t /\ p.t < ivs[k][2]
+InNameOnly(ivs, t) == \E k \in 1..Len(ivs) : ivs[k][1] <= t /\ t < ivs[k][2]
+NameOnly(ivs, p) == p.off = p.tzoff /\ InNameOnly(ivs, p.t)
 \* known class 2 (C13-K2): the source has two transitions closer than the coarsest search step;
 \* the period between them can be skipped
 ShortPeriod(trs, t) == \E a, b \in trs : a < b /\ b - a < Coarse /\ a <= t /\ t < b
@@ -46,7 +47,7 @@ Eval(e) ==
         nameOK(p) == p.name \in {zone[i].name : i \in ActiveIn(ons, p.t)}
         tzOK(p) == p.tzoff = p.off /\ p.tzname = p.name
         known(p) == Displaced(zone, p.t) \/ ShortPeriod(trs, p.t)
-        knownName(p) == known(p) \/ (NameOnly(e.nameonly, p) /\ offOK(p))
+        knownName(p) == known(p) \/ (InNameOnly(e.nameonly, p.t) /\ offOK(p))
         knownTz(p) == DisplacedWide(zone, p.t) \/ ShortPeriod(trs, p.t) \/ NameOnly(e.nameonly, p)
         report(S, K(_), clause) == IF S = {} THEN TRUE
                                    ELSE IF \A j \in S : K(e.probes[j]) THEN PrintT(<<"KNOWN", l, clause>>)
